@@ -1,50 +1,11 @@
 """C14 - selector-filtered lists/watches are exact views; one selector semantics."""
 import json, os, re
-import vlib, watchlib
+import vlib, watchlib, selectorlib
 
 
 def run(ctx):
     quick = ctx.tier == "quick"
-    # the term algebra, checked and emitted by TLC
-    r = vlib.tlc(ctx, "MC_Selector", "MC_Selector.cfg", workers=1, timeout=900)
-    if not r.completed:
-        raise vlib.Infra("MC_Selector did not complete: %s\n%s" % (r.inv or r.error, r.out[-1500:]))
-    tab = None
-    for line in r.out.splitlines():
-        if line.startswith('<<"BEH"'):
-            tab = json.loads(vlib._tla_unquote(re.match(r'<<"BEH", (".*")>>$', line).group(1)))
-    if not tab:
-        raise vlib.Infra("selector table not emitted")
-    tab["rows"].sort(key=lambda x: json.dumps(x, sort_keys=True))
-    nrows, nmaps = len(tab["rows"]), len(tab["maps"])
-    ctx.cov["table_rows"] = nrows
-    ctx.cov["label_maps"] = nmaps
-    ctx.cov["states"] += nrows * nmaps           # truth-table cells evaluated by the specification
-    ctx.cov["transitions"] += nrows * nmaps
-    ctx.cov["exhaustive"] = not quick
-    if quick:
-        tab["rows"] = [x for i, x in enumerate(tab["rows"]) if (i + ctx.seed) % 3 == 0]
-    ctx.cov["behaviours_replayed"] = len(tab["rows"])
-    ctx.sample({"row": tab["rows"][1], "maps": tab["maps"]})
-    inp = os.path.join(ctx.scratch, "table.json")
-    json.dump(tab, open(inp, "w"))
-    binary = vlib.go_build_test(ctx, "c14")
-    out = os.path.join(ctx.scratch, "selectors.ndjson")
-    vlib.go_run(ctx, binary, "TestSelectors", {"VERIF_IN": inp, "VERIF_OUT": out, "VERIF_ALL_WATCHES": 0 if quick else 1}, timeout=3000)
-    recs = vlib.read_ndjson(out)
-    mism, consumed, vr = vlib.validate(ctx, "TraceSelector", "TraceSelector.cfg", out, timeout=3000)
-    if consumed != len(recs):
-        raise vlib.Infra("TraceSelector consumed %s of %d\n%s" % (consumed, len(recs), vr.out[-2500:]))
-    details = [x for x in vr.out.splitlines() if x.startswith('<<"DETAIL"')]
-    ctx.cov["traces_validated_against_impl"] += len(recs)
-    ctx.cov["site_evaluations"] = {s: len([x for x in recs if x["site"] == s]) for s in sorted({x["site"] for x in recs})}
-    ctx.sample({"site_line": recs[1]})
-    for i, line in enumerate(mism):
-        m = re.match(r'<<"MISMATCH", "([^"]*)", (\d+), "([^"]*)">>', line)
-        site, lno, what = m.group(1), int(m.group(2)), m.group(3)
-        rec = recs[lno - 1]
-        ops = sorted({t["op"] + ("/novalue" if not t["vals"] else "") + ("/inverted" if t["invert"] else "") for q in rec["row"] for t in q})
-        ctx.violation("%s/%s/%s" % (what, site, ",".join(ops)[:80]), "%s: %s" % (what, (details[i] if i < len(details) else "")[:700]), {"record": rec})
+    recs = selectorlib.run(ctx, quick)
     # filtered watch = change log of the filtered set (rewrite rule), replayed as in C02 with selectors on
     vlib.mc(ctx, "WatchLog", "MC_WatchLog_quick.cfg", timeout=1200)
     configs = [watchlib.RING_CONFIGS[i] for i in ((2,) if quick else (1, 2, 4))]
